@@ -120,11 +120,11 @@ class Creators:
       self.process_line_queue()
       gfa_line.connect(self)
     elif rt in ["E", "F", "G", "U", "O"]:
-      self._version = "gfa2"
-      self._version_explanation = "implied by: presence of a {} line".format(rt)
       if isinstance(gfa_line, str):
         gfa_line = gfapy.Line(gfa_line, vlevel=self._vlevel,
-            version=self._version, dialect=self._dialect)
+            version="gfa2", dialect=self._dialect)
+      self._version = "gfa2"
+      self._version_explanation = "implied by: presence of a {} line".format(rt)
       self.process_line_queue()
       gfa_line.connect(self)
     elif rt in ["L", "C", "P"]:
